@@ -256,17 +256,26 @@ def do_write(fx, np, route, obj, fmt, modes, n, raw=False):
         x.reset()
         x[1] = obj
         return x, x[1]
-    if route == 'setitem':          # scalar into one element of an array object
+    if route == 'setitem':          # scalar into one element of an array object (positive / negative index, alternating with the word)
         x = Fxp(np.zeros(3), s, w, f, **kw)
-        x[1] = obj
+        if (w + f) % 2:
+            x[-2] = obj
+        else:
+            x[1] = obj
         return x, x[1]
-    if route == 'setitem-slice':    # array into a slice
+    if route == 'setitem-slice':    # array into a slice (positive / negative bounds)
         x = Fxp(np.zeros(n + 2), s, w, f, **kw)
-        x[1:n + 1] = obj
+        if (w + f) % 2:
+            x[-(n + 1):-1] = obj
+        else:
+            x[1:n + 1] = obj
         return x, x[1:n + 1]
     if route == 'setitem-2d':
         x = Fxp(np.zeros((2, 3)), s, w, f, **kw)
-        x[1, 2] = obj
+        if (w + f) % 2:
+            x[-1, -1] = obj
+        else:
+            x[1, 2] = obj
         return x, x[1, 2]
     raise ValueError(route)
 
